@@ -683,3 +683,10 @@ def mixed_witness_guard(ctx):
             ctx.violate(q, 'wallet with a %s, request for another witness type: %s' % (name, 'accepted' if exp else 'refused'), ifs[0],
                         'a wallet restored from the BIP84 account zprv hands out "legacy" keys that are BIP84 children in another encoding')
     ctx.saw('request for another witness type refused: %s' % res)
+
+
+@PROP.obligation('C09.explicit-falsy')
+def explicit_falsy(ctx):
+    """A parameter of wallets.py that gets its default through a truthiness test (`p = p or d`, `if not p: p = d`) is never passed an explicit falsy constant (0, False, '') by a caller inside the package: account 0, change 0, cosigner 0 and index 0 are values, not "absent"."""
+    from .common_falsy import falsy_defaults as run
+    run(ctx, ['wallets'], 'account / cosigner / index 0 given on purpose is replaced by the wallet default: the key is looked up or created at another path')
